@@ -609,7 +609,9 @@ class Union(Composite):
         inheritance. For example, if a union U2 extends U1 in Python, this
         validator will accept U1 in places where U2 is expected.
         """
-        if not issubclass(self.definition, type(val)):
+        # object is a Python parent class of every class, but not a union.
+        if (not hasattr(type(val), '_tagmap') or
+                not issubclass(self.definition, type(val))):
             raise ValidationError('expected type %s or subtype, got %s' %
                 (
                     type_name_with_module(self.definition),
